@@ -28,7 +28,9 @@ RULE = ("simulated histories over 1-3 services and 1-2 interfaces: unregister at
         "double unregister, re-registration (same and changed data), shutdown at every phase and after it, queries of every "
         "type before and after, services renamed by injected conflicts, addr_auto services with interfaces disabled and "
         "enabled; v4-only and v6-only interface tables (fixed and addr_auto addresses) with the periodic interface check "
-        "switched off, unregister, then a timer-exact run. Non-trivial = at least one packet sent")
+        "switched off, unregister, then a timer-exact run. Model-free family (60): 1-3 services whose instance names contain "
+        "non-ASCII upper-case letters (lower-case non-ASCII and ASCII names as control), timer-exact run, a question per "
+        "instance, unregister under the registered spelling, a question and a second unregister afterwards. Non-trivial = at least one packet sent")
 TRUSTED = [
     "Coq 8.16.1 kernel (coqc); vm_compute only in Examples and witness lemmas",
     "axioms: none (Print Assumptions: Closed under the global context for every theorem)",
@@ -40,7 +42,11 @@ TRUSTED = [
     "modelled, not verified: hash-container orders (sorted before comparison), non-ASCII lower-casing (generators use "
     "case variants of ASCII names only), what the hooks replace, the record cache",
 ]
-PARTIAL = ("The theorems are single-step statements for every state; that chk_C09 accepts every run of the daemon model "
+PARTIAL = ("Names with non-ASCII cased letters are outside the model (Base/Bytes.v folds ASCII letters only, the daemon keys its "
+           "service map with the Unicode to_lowercase): they are covered by a model-free family judged on the trace in exactly "
+           "the registered spelling (liveness only: three probes 250 ms apart, two announcements one second apart within 1 s of "
+           "the registration, questions answered; unregister OK, goodbye and repeat, silence afterwards), not by the correspondence. "
+           "The theorems are single-step statements for every state; that chk_C09 accepts every run of the daemon model "
            "(in particular that no response ever carries a record of an unregistered service, over whole histories) is "
            "validated on every generated history by running the monitor on the model's own output, not proved. chk_C09 "
            "judges each iteration against the model's state before it; that state is validated against the implementation "
@@ -51,10 +57,14 @@ KNOWN = {}
 
 
 def project(case_line, raw):
+    if reglib.is_na(case_line):
+        return reglib.project_na(case_line, raw)
     return reglib.project(case_line, raw)
 
 
 def model_input(case_line, raw):
+    if reglib.is_na(case_line):
+        return "na"
     return reglib.model_input(ID, case_line, raw)
 
 
@@ -73,6 +83,9 @@ def generate(rng, tier):
     add(reglib.gen_two_daemon_history, 40 * k, "two")
     add(reglib.gen_iface_toggle_history, 120 * k, "toggle")
     add(reglib.gen_goodbye_repeat_history, 160 * k, "repeat")
+    # model-free: names with non-ASCII cased letters, judged on the trace (reglib.project_na)
+    for i in range(60 * k):
+        cases.append(Case(reglib.jdump(reglib.gen_nonascii_history(rng, "na-%d" % i, unregister=True)), "nonascii"))
     for cfg in ("v4", "v6"):
         for auto in (False, True):
             for off in (True, False):
@@ -84,7 +97,7 @@ def generate(rng, tier):
 
 
 def nontrivial(line, result):
-    return reglib.has_sends(result)
+    return reglib.has_sends(result) or result == "NA ok"
 
 
 def known_class(line, impl_result, monitor_result):
@@ -92,6 +105,8 @@ def known_class(line, impl_result, monitor_result):
 
 
 def shrink(line, still_bad):
+    if reglib.is_na(line):
+        return line
     return vlib.shrink_history(line, still_bad)
 
 
